@@ -6,9 +6,6 @@ From PushModel Require Import Base.Sx Base.Machine Base.ListOps Model.Stack Spec
 Import ListNotations.
 Open Scope Z_scope.
 
-Definition un_profile (s : sx) : option profile :=
-  match s with SZ 0 => Some Debug | SZ 1 => Some Release | _ => None end.
-
 Definition un_op (s : sx) : option (op Z) :=
   match s with
   | SL [SZ 0] => Some OSize
